@@ -2052,6 +2052,21 @@ impl Fs {
 
         // Overlay pending writes (need to check the content path)
         for op in &self.pending {
+            // A pending truncation discards everything past the new length,
+            // including earlier pending writes; a later extension reads zeros.
+            if let PendingOp::SetLen {
+                path: p,
+                len: new_len,
+                ..
+            } = op
+            {
+                if (p == &content_path || self.path_renamed_to(p, &content_path))
+                    && *new_len < offset + to_read as u64
+                {
+                    let start = new_len.saturating_sub(offset) as usize;
+                    buf[start..to_read].fill(0);
+                }
+            }
             if let PendingOp::Write {
                 path: p,
                 offset: write_off,
